@@ -321,24 +321,29 @@ func mkErr(flavor int, tag string) error {
 	}
 }
 
+// chainHas: target occurs in got's Unwrap chain. errors.Is cannot match a target whose
+// dynamic type is not comparable, so such targets are found with errors.As + identity.
+func chainHas(got, target error) bool {
+	if reflect.TypeOf(target).Comparable() {
+		return errors.Is(got, target)
+	}
+	if se, isSlice := target.(SliceErr); isSlice {
+		var s SliceErr
+		return errors.As(got, &s) && sameErr(s, se)
+	}
+	return false
+}
+
 // errMatches: got must match the exact error value want under errors.Is / errors.As.
 func errMatches(got, want error) string {
 	if got == nil {
 		return "returned error is nil"
 	}
-	if se, isSlice := want.(SliceErr); isSlice {
-		// errors.Is cannot match a non-comparable target; errors.As must recover the very value
-		var s SliceErr
-		if !errors.As(got, &s) || !sameErr(s, se) {
-			return fmt.Sprintf("errors.As(%q) does not recover the SliceErr value", got)
-		}
-		return ""
+	if !chainHas(got, want) {
+		return fmt.Sprintf("errors.Is/As(%q, %q) is false", got, want)
 	}
-	if !errors.Is(got, want) {
-		return fmt.Sprintf("errors.Is(%q, %q) is false", got, want)
-	}
-	if inner := errors.Unwrap(want); inner != nil && !errors.Is(got, inner) {
-		return fmt.Sprintf("errors.Is(%q, inner %q) is false", got, inner)
+	if inner := errors.Unwrap(want); inner != nil && !chainHas(got, inner) {
+		return fmt.Sprintf("errors.Is/As(%q, inner %q) is false", got, inner)
 	}
 	switch w := want.(type) {
 	case *PtrErr:
@@ -350,6 +355,11 @@ func errMatches(got, want error) string {
 		var v ValErr
 		if !errors.As(got, &v) || v != w {
 			return fmt.Sprintf("errors.As(%q) does not recover the ValErr value", got)
+		}
+	case *TempErr:
+		var p *TempErr
+		if !errors.As(got, &p) || p != w {
+			return fmt.Sprintf("errors.As(%q) does not recover the *TempErr instance", got)
 		}
 	}
 	return ""
